@@ -202,6 +202,15 @@ func (p *Program) absKey(c *Contract) string {
 	if c.PkgPath == "" {
 		return k
 	}
+	for _, pre := range []string{"funcfield:", "functype:"} {
+		if strings.HasPrefix(k, pre) {
+			rest := strings.TrimPrefix(k, pre)
+			if strings.Contains(rest, "/") {
+				return k
+			}
+			return pre + c.PkgPath + "." + rest
+		}
+	}
 	if m := recvRe.FindStringSubmatch(k); m != nil {
 		return "(" + m[1] + c.PkgPath + "." + m[2] + ")." + m[3]
 	}
@@ -253,6 +262,9 @@ func (p *Program) missingTargets(prop string) []string {
 	var out []string
 	for key, c := range p.Contracts {
 		if c.Trusted || c.Oracle {
+			continue
+		}
+		if strings.HasPrefix(key, "funcfield:") || strings.HasPrefix(key, "functype:") {
 			continue
 		}
 		for _, pr := range c.Props {
